@@ -380,14 +380,68 @@ class NNRotations(Contract):
         return cl
 
 
-CONTRACTS = [NNDistances, NNRotations]
+class NNStats(Contract):
+    """get_nn_stats: the 16 numeric columns of the result are, row by row, the values returned by get_nn_distances and get_nn_rotations (used
+    through their contracts, which also say that both list their rows in the same order) under the documented column names, plus type = 'nn'"""
+    prop = "C18"
+    module = "nnana"
+    qual = "get_nn_stats"
+
+    def bind(self, cx, cfg):
+        sp = frames.Space(tag="pairs")
+        vec = lambda n: frames.GVec(SV(z3.Real(n)), sp)
+        arr = lambda n: frames.RowArr([SV(z3.Real(f"{n}_{a}")) for a in "xyz"], sp)
+        vals = {"centered": arr("centered"), "rotated": arr("rotated"), "dist": vec("nn_dist"), "ang": vec("ang_dst"), "ida": vec("subtomo_idx"), "idn": vec("subtomo_idx_nn"),
+                "rot": arr("coord_rot"), "eul": arr("angles")}
+        calls = []
+
+        def dist_stub(a, b, **k):
+            calls.append(("distances", a, b, k))
+            return vals["centered"], vals["rotated"], vals["dist"], vals["ang"], vals["ida"], vals["idn"]
+
+        def rot_stub(a, b, **k):
+            calls.append(("rotations", a, b, k))
+            return vals["rot"], vals["eul"]
+        g = common.base_globals()
+        it = Interp("nnana", g, contracts={"get_nn_distances": dist_stub, "get_nn_rotations": rot_stub})
+        f = it.function("get_nn_stats")
+        p, k = SV(z3.Real("pixel_size")), SV(z3.Int("nn_number"))
+        return (lambda: f("motl_a", "motl_nn", pixel_size=p, feature_id="tomo_id", nn_number=k, rotation_type="angular_distance")), {"vals": vals, "calls": calls, "p": p, "k": k}
+
+    def post(self, cx, cfg, inp, res):
+        v, calls = inp["vals"], inp["calls"]
+        ok = isinstance(res, frames.GFrame)
+        cl = [("returns_a_table", z3.BoolVal(bool(ok)))]
+        c_ok = (len(calls) >= 2 and calls[-2][0] == "distances" and calls[-1][0] == "rotations" and all(c[1] == "motl_a" and c[2] == "motl_nn" for c in calls[-2:])
+                and calls[-2][3].get("pixel_size") is inp["p"] and calls[-2][3].get("nn_number") is inp["k"] and calls[-1][3].get("nn_number") is inp["k"]
+                and calls[-2][3].get("feature") == "tomo_id" and calls[-1][3].get("feature") == "tomo_id" and calls[-2][3].get("rotation_type") == "angular_distance")
+        cl.append(("both_helpers_called_with_the_same_lists_grouping_field_and_neighbour_count", z3.BoolVal(bool(c_ok))))
+        if not ok:
+            return cl
+        names = ["distance", "coord_x", "coord_y", "coord_z", "coord_rx", "coord_ry", "coord_rz", "angular_distance", "rot_x", "rot_y", "rot_z", "phi", "theta", "psi", "subtomo_idx", "subtomo_nn_idx"]
+        want = [v["dist"].val] + v["centered"].vals + v["rotated"].vals + [v["ang"].val] + v["rot"].vals + v["eul"].vals + [v["ida"].val, v["idn"].val]
+        cl.append(("columns_named_as_documented", z3.BoolVal(list(res.cols) == names + ["type"])))
+        if list(res.cols) != names + ["type"]:
+            return cl
+        for nme, w in zip(names, want):
+            cl.append((f"column_{nme}_holds_the_helpers_value_of_the_same_row", zr(res.row[nme]) == zr(w), ()))
+        cl.append(("type_is_nn", z3.BoolVal(res.row["type"] == "nn")))
+        cl.append(("one_row_per_reported_pair", z3.simplify(sym.to_bool(res.present)) == z3.BoolVal(True), ()))
+        return cl
+
+    def replay(self, clause, model, cfg):
+        from rtc import c18 as r
+        return r.replay_small()
+
+
+CONTRACTS = [NNDistances, NNRotations, NNStats]
 LEVEL = "proof"
 EXPLANATION = ("For the generic (tomogram, query particle, neighbour rank) the values appended by get_nn_distances / get_nn_rotations are proved to be: offset = pixel x (neighbour - query) on complete positions, "
                "distance = pixel x Euclidean distance, particle-frame offset = inverse orientation applied to the offset, angular distance of the pair (callee contract from C06), relative orientation "
-               "R_a^-1 R_b, the two subtomogram numbers, same tomogram only, rank < min(k, size); both functions visit the tomograms in the sorted order of the values shared by the two lists (np.intersect1d of np.unique), which is what lets get_nn_stats stack their blocks row by row. 'The k closest, ascending' is the assumed KD-tree contract, compared with brute force in the bounded "
+               "R_a^-1 R_b, the two subtomogram numbers, same tomogram only, rank < min(k, size); both functions visit the tomograms in the sorted order of the values shared by the two lists (np.intersect1d of np.unique), which is what lets get_nn_stats stack their blocks row by row; get_nn_stats itself is proved to put the helpers' values of the same row under the documented 16 column names (plus type = 'nn'). 'The k closest, ascending' is the assumed KD-tree contract, compared with brute force in the bounded "
                "stand-in; invariance under rigid motion is a lemma over the postconditions plus the bounded check.")
 ASSUMPTIONS = ["sklearn KDTree.query contract (k nearest, ascending, distance of the reported neighbour); get_motl_subset contract (C08); geom.compare_rotations contract (C06); scipy Rotation contract",
-               "assembly of the table in get_nn_stats (hstack/reshape) is checked in the bounded stand-in only"]
+               "assembly of the table in get_nn_stats: np.hstack / reshape(n,1) / pd.DataFrame(array, columns=...) contracts (columns side by side, rows aligned)"]
 
 
 def lemmas(ck):
